@@ -422,17 +422,147 @@ class SymStr(Proxy):
         return SymBool(z3.SuffixOf(S(p), self.t))
 
     def __mod__(self, o): self._loud("% (format with symbolic template)")
-    def split(self, *a, **k): self._loud("split")
-    def rsplit(self, *a, **k): self._loud("rsplit")
     def join(self, *a, **k): self._loud("join with symbolic separator")
-    def lower(self): self._loud("lower")
-    def upper(self): self._loud("upper")
-    def strip(self, *a): self._loud("strip")
-    def lstrip(self, *a): self._loud("lstrip")
     def replace(self, *a): self._loud("replace")
-    def find(self, *a): self._loud("find")
     def format(self, *a, **k): self._loud("format")
     def isupper(self): self._loud("isupper")
+
+    # --- character classes and decompositions (exact: the decomposition exists and is unique, its parts are fresh symbols)
+    @staticmethod
+    def _charset_rx(chars):
+        from . import relang as RL
+        if chars is None:
+            from . import ext
+            return RL.cset(ext.category_ranges("space"))
+        if not isinstance(chars, str) or not chars:
+            raise EngineUnsupported("strip / split with a symbolic or empty character set")
+        return RL.cset(RL._merge([(ord(c), ord(c)) for c in chars]))
+
+    def isspace(self):
+        from . import relang as RL
+        return SymBool(z3.InRe(self.t, RL.to_z3(RL.plus(self._charset_rx(None)))))
+
+    def _strip(self, chars, left, right):
+        from . import relang as RL
+        cs = self._charset_rx(chars)
+        ncs = RL.cset(RL.cset_not(cs[1]))
+        c = ctx()
+        l = SymStr(name="strip_l") if left else ""
+        r = SymStr(name="strip_r") if right else ""
+        m = SymStr(name="strip_m")
+        c.assume(self.t == z3.Concat(S(l), m.t, S(r)) if (left or right) else self.t == m.t)
+        star = RL.to_z3(RL.star(cs))
+        if left:
+            c.assume(z3.InRe(l.t, star))
+        if right:
+            c.assume(z3.InRe(r.t, star))
+        first = ncs if left else RL.ANY
+        last = ncs if right else RL.ANY
+        core = RL.alt(RL.EPS, RL.conj(first, last), RL.cat(first, RL.cat(RL.ALL, last)))
+        c.assume(z3.InRe(m.t, RL.to_z3(core)))
+        return m
+
+    def strip(self, chars=None): return self._strip(chars, True, True)
+    def lstrip(self, chars=None): return self._strip(chars, True, False)
+    def rstrip(self, chars=None): return self._strip(chars, False, True)
+
+    def _cut(self, sep, from_right):
+        """(found, head, tail) around the first (last) occurrence of a one-character separator"""
+        if not isinstance(sep, str) or len(sep) != 1:
+            raise EngineUnsupported("partition / split on a separator that is not one concrete character")
+        c = ctx()
+        if not c.decide(z3.Contains(self.t, z3.StringVal(sep))):
+            return False, None, None
+        h, tl = SymStr(name="cut_head"), SymStr(name="cut_tail")
+        c.assume(self.t == z3.Concat(h.t, z3.StringVal(sep), tl.t))
+        c.assume(z3.Not(z3.Contains((tl if from_right else h).t, z3.StringVal(sep))))
+        return True, h, tl
+
+    def partition(self, sep):
+        ok, h, tl = self._cut(sep, False)
+        return (h, sep, tl) if ok else (self, "", "")
+
+    def rpartition(self, sep):
+        ok, h, tl = self._cut(sep, True)
+        return (h, sep, tl) if ok else ("", "", self)
+
+    def split(self, sep=None, maxsplit=-1):
+        if maxsplit != 1:
+            self._loud("split without maxsplit=1 (unbounded result)")
+        ok, h, tl = self._cut(sep, False)
+        return [h, tl] if ok else [self]
+
+    def rsplit(self, sep=None, maxsplit=-1):
+        if maxsplit != 1:
+            self._loud("rsplit without maxsplit=1 (unbounded result)")
+        ok, h, tl = self._cut(sep, True)
+        return [h, tl] if ok else [self]
+
+    def find(self, sub, *a):
+        if a:
+            self._loud("find with start / end")
+        return SymInt(z3.IndexOf(self.t, S(sub), z3.IntVal(0)))
+
+    def upper(self): return SymCase(self, "upper")
+    def lower(self): return SymCase(self, "lower")
+
+
+class SymCase(Proxy):
+    """s.upper() / s.lower(): only comparable with concrete strings (and usable as a key looked up in a container of concrete strings);
+    `s.upper() == "AND"` holds exactly for the strings whose upper() is AND by CPython's own case tables (e.g. also 'and' written with a long s or a dotless i)"""
+    __slots__ = ("base", "kind")
+
+    def __init__(self, base, kind):
+        self.base = base
+        self.kind = kind
+        self.t = None
+
+    _INV = {}
+
+    @classmethod
+    def _inverse(cls, kind):
+        """image string -> code points whose upper() / lower() is that string (exact, from CPython's own tables)"""
+        if kind not in cls._INV:
+            from . import relang as RL
+            inv = {}
+            for cp in range(0, RL.MAXCP + 1):
+                ch = chr(cp)
+                img = ch.upper() if kind == "upper" else ch.lower()
+                inv.setdefault(img, []).append(cp)
+            cls._INV[kind] = inv
+        return cls._INV[kind]
+
+    def _matches(self, const):
+        from . import relang as RL
+        if not isinstance(const, str):
+            raise EngineUnsupported("%s() compared with %s" % (self.kind, type(const).__name__))
+        inv = self._inverse(self.kind)
+        n = len(const)
+        R = [None] * (n + 1)
+        R[n] = RL.EPS
+        for i in range(n - 1, -1, -1):
+            alts = []
+            for L in (1, 2, 3):
+                if i + L <= n and R[i + L] is not None:
+                    cps = inv.get(const[i:i + L])
+                    if cps:
+                        alts.append(RL.cat(RL.cset(RL._merge([(c, c) for c in cps])), R[i + L]))
+            R[i] = RL.alt(*alts) if alts else None
+        if R[0] is None:
+            return z3.BoolVal(False)
+        return z3.InRe(self.base.t, RL.to_z3(R[0]))
+
+    def __eq__(self, o):
+        return SymBool(self._matches(o))
+
+    def __ne__(self, o):
+        return SymBool(z3.Not(self._matches(o)))
+
+    def __hash__(self):
+        raise EngineUnsupported("hash of %s()" % self.kind)
+
+    def __bool__(self):
+        return bool(self.base)
 
 
 class SymInt(Proxy):
